@@ -740,7 +740,7 @@ func ptrOf(a any) (reflect.Value, uintptr, bool) {
 }
 
 func (env *Env) view(e *Expr) (any, bool) {
-	isView := e.Name == "RLen" || e.Name == "RBit" || e.Name == "cursor"
+	isView := e.Name == "RLen" || e.Name == "RBit" || e.Name == "cursor" || e.Name == "FLen" || e.Name == "FByte" || e.Name == "FBit" || e.Name == "fpos"
 	for _, v := range viewDefs {
 		if v.Fn == e.Name {
 			isView = true
@@ -756,6 +756,37 @@ func (env *Env) view(e *Expr) (any, bool) {
 	}
 	if si, ok := stubs[p]; ok {
 		switch e.Name {
+		case "FLen":
+			return big.NewInt(int64(len(si.s.Bits) / 8)), true
+		case "FBit":
+			i := asBig(env.Eval(e.Args[1])).Int64()
+			if i < 0 || i >= int64(len(si.s.Bits)) {
+				unk("FBit outside the stub file")
+			}
+			return si.s.Bits[i] == '1', true
+		case "FByte":
+			i := asBig(env.Eval(e.Args[1])).Int64()
+			if i < 0 || 8*i+8 > int64(len(si.s.Bits)) {
+				unk("FByte outside the stub file")
+			}
+			var b uint64
+			for k := int64(0); k < 8; k++ {
+				b <<= 1
+				if si.s.Bits[8*i+k] == '1' {
+					b |= 1
+				}
+			}
+			return U{b, 8}, true
+		case "fpos":
+			if si.pre {
+				return big.NewInt(si.s.Cur), true
+			}
+			m := rv.MethodByName("Seek")
+			if !m.IsValid() {
+				unk("stub has no Seek")
+			}
+			out := m.Call([]reflect.Value{reflect.ValueOf(int64(0)), reflect.ValueOf(1)})
+			return big.NewInt(out[0].Int()), true
 		case "RLen":
 			return big.NewInt(int64(len(si.s.Bits))), true
 		case "RBit":
